@@ -169,4 +169,9 @@ def check(ctx: Ctx) -> str:
     from . import c03
 
     ctx.run_imported("C03", {"R8"}, c03.check)
+    # filters do not write into objects shared between renders (environment policies, their
+    # arguments): concurrent renders would observe each other's settings (rule owned by C29)
+    from . import c29
+
+    ctx.run_imported("C29", {"R1"}, c29.check)
     return __doc__ or ""
